@@ -55,38 +55,20 @@ theorem C04_root_only_maps (c : Cfg) (toks : List Tok) (tape : List TTok) (d : B
     deTape c (.plain .bool) tape = .error .other ∧ valueOfBin c (.plain .bool) d = .error .other := by
   simp [deOndemand, deStream, deSeqRoot, deTape, valueOfBin, valueOfG]
 
-/-
-FULL STATEMENT (not proved as a whole):
-  C04_ondemand_eq_stream : WellFormed d → Fits ty d →
-      deOndemand c ty (tokensOf d) = deStream c ty (tokensOf d)
-What is proved (`…_partial`): on every lexeme stream WITHOUT truncation markers and WITHOUT the rgb
-marker (`Plain`), for every type and fuel, one step of the token deserializer and of the sequence
-loop of the on-demand model either leaves the token-level model (`beyond`: an `Open` in key
-position followed by a payload-carrying lexeme, where the Rust drops only the lexeme id) or equals
-the streaming model, given the same for the previous fuel; together with the equality of every
-reader primitive (`fetch`, `read`, `next_value`, `deserialize_ignored_any`) and `Rel` for
-`next_key`.  Missing: the same step for the map / struct loops (same shape, not finished), the
-induction over fuel assembling the steps, rgb blocks (they need "requested as a sequence or
-ignored", `C04_rgb_dispatch` is the local fact), and the absence of `beyond` on well-formed
-documents (ghost objects are `{}`: the dropped lexeme is `Close`).
--/
-theorem C04_ondemand_eq_stream_partial (c : Cfg) (f : Nat)
-    (ihE : ∀ et toks acc, Plain toks → Rel (deElems .ondemand c f et toks acc) (deElems .stream c f et toks acc) ∧ SubOut (deElems .stream c f et toks acc) toks)
-    (ihM : ∀ vt root toks acc, Plain toks → Rel (deMap .ondemand c f vt root toks acc) (deMap .stream c f vt root toks acc) ∧ SubOut (deMap .stream c f vt root toks acc) toks)
-    (ihS : ∀ fs bt root toks slots, Plain toks → Rel (deStruct .ondemand c f fs bt root toks slots) (deStruct .stream c f fs bt root toks slots) ∧ SubOut (deStruct .stream c f fs bt root toks slots) toks)
-    (ihT : ∀ ty t rest, plainTok t = true → Plain rest → Rel (deTok .ondemand c f ty t rest) (deTok .stream c f ty t rest) ∧ SubOut (deTok .stream c f ty t rest) rest) :
-    (∀ ty t rest, plainTok t = true → Plain rest →
-      Rel (deTok .ondemand c (f + 1) ty t rest) (deTok .stream c (f + 1) ty t rest) ∧
-      SubOut (deTok .stream c (f + 1) ty t rest) rest) ∧
-    (∀ et toks acc, Plain toks →
-      Rel (deElems .ondemand c (f + 1) et toks acc) (deElems .stream c (f + 1) et toks acc) ∧
-      SubOut (deElems .stream c (f + 1) et toks acc) toks) :=
-  ⟨deTok_step c f ihE ihM ihS ihT, deElems_step c f ihE ihT⟩
-
-/-- the induction hypotheses of the step are satisfiable: they hold at fuel 0. -/
-example (c : Cfg) : ∀ ty t rest, plainTok t = true → Plain rest →
-    Rel (deTok .ondemand c 0 ty t rest) (deTok .stream c 0 ty t rest) ∧ SubOut (deTok .stream c 0 ty t rest) rest := by
-  intro ty t rest _ _; simp [deTok, Rel, SubOut]
+/-- On every lexeme stream without truncation markers and without the rgb marker (`Plain`), for
+every root request, resolver and strategy: the on-demand deserializer model either leaves the
+token-level model (`beyond`: an `Open` in key position followed by a payload-carrying lexeme, where
+the Rust drops only that lexeme's id and resynchronises on bytes) or returns exactly what the
+streaming deserializer model returns.  Proof: both are sequential consumers of the same lexemes;
+induction over the fuel of the four mutually recursive loops (`seq_paths_rel`), each step from the
+agreement of the reader primitives (`C04_readers_agree`).
+Not covered by this statement (correspondence + oracle only): streams containing rgb blocks
+(locally: `C04_rgb_dispatch`; the on-demand path reads the block when the token is consumed, the
+streaming reader when it is fetched) and the absence of `beyond` on well-formed documents (ghost
+objects are `{}`, so the dropped lexeme is `Close`). -/
+theorem C04_ondemand_eq_stream (c : Cfg) (ty : RootTy) (toks : List Tok) (h : Plain toks) :
+    deOndemand c ty toks = .error .beyond ∨ deOndemand c ty toks = deStream c ty toks :=
+  seqRoot_rel c ty toks h
 
 /-- reader primitives: on `Plain` streams the on-demand lexer and the streaming reader deliver the
 same tokens, read the same value token, skip the same input; `next_key` agrees unless the
